@@ -44,12 +44,30 @@ def normalise(trace: list[dict]) -> list[dict]:
             continue
         if e["e"] in ("astart", "aend"):       # attempt hooks are not among the compared effects
             continue
+        if e["e"] in ("allow", "rec"):         # breaker interactions are compared separately
+            continue
         if e["e"] == "emit" and e["name"] != "retry":
             terminal = True
-        if e["e"] == "classify" and (terminal or (i + 1 < len(trace) and trace[i + 1]["e"] == "deliver")):
+        if e["e"] == "classify":
+            j = i + 1
+            while j < len(trace) and (trace[j]["e"] in ("rec", "allow") or
+                                      (trace[j]["e"] == "emit" and "state" in trace[j])):
+                j += 1
+            if terminal or (j < len(trace) and trace[j]["e"] == "deliver"):
+                continue
+        if e["e"] == "emit" and "state" in e:      # breaker events: compared with the breaker ops
             continue
         out.append(e)
     return out
+
+
+def breaker_ops(trace: list[dict]) -> list[tuple]:
+    return [(e["e"], e.get("allowed"), e.get("op"), e.get("k")) for e in trace if e["e"] in ("allow", "rec")]
+
+
+BREAKER_CFG = {"thr": 3, "W": 100000, "R": 5,
+               "trip": ["TRANSIENT", "RATE_LIMIT", "UNKNOWN", "PERMANENT", "CONCURRENCY", "SERVER_ERROR",
+                        "AUTH", "PERMISSION"], "cthr": {}}
 
 
 def deliveries(trace: list[dict]) -> list[dict]:
@@ -78,6 +96,7 @@ def _c12_chunk(chunk):
                             ("call" if idx % 3 == 1 else "both")
                         tr = retryenv.run_scenario(cfg, events, entry=entry, place=place,
                                                    force_mode=mode, site_fault=fault,
+                                                   breaker_cfg=BREAKER_CFG,
                                                    hooks=fault is not None and fault["site"] in ("astart", "aend"),
                                                    async_callbacks=(entry.startswith("Async") and
                                                                     [False, True, "lambda"][idx % 3]))
@@ -102,6 +121,14 @@ def _c12_chunk(chunk):
                     viol("events", ("Retry", key[1]), key)
                 elif deliveries(tr) != refd[key[1]]:
                     viol("delivery", ("Retry", key[1]), key)
+            # breaker interactions: the four Policy/AsyncPolicy entry points (and their context
+            # managers) must report the same admissions and the same settlement
+            if fault is None:
+                pol = {k: breaker_ops(t) for k, t in traces.items() if k[0].split(".")[0] in ("Policy", "AsyncPolicy")}
+                refk = ("Policy", "call")
+                for k, ops in pol.items():
+                    if ops != pol[refk]:
+                        viol("breaker-interactions", refk, k)
             # call vs execute: related deliveries
             for c, x in zip(refd["call"], refd["exec"]):
                 res["pairs"].append({"call": c, "exec": x, "fault": fault, "cfg": full_cfg(cfg),
@@ -112,7 +139,7 @@ def _c12_chunk(chunk):
 def c12_signature(v: dict) -> str:
     a, b, f = v["a"], v["b"], v["fault"]
     where = f"{f['site']}-raises" if f else "no-fault"
-    if a[1] != b[1]:
+    if a[1] != b[1] and v["what"] != "breaker-interactions":
         return f"C12/call-vs-execute/{where}"
     return f"C12/{a[0]}.{a[1]}-vs-{b[0]}.{b[1]}/{where}/{v['what']}"
 
